@@ -259,6 +259,16 @@ def mainExit (s : State) : R :=
   | none => (s, [])
   | some code => if s.cfg.graceful then closeP s ⊳ onNetErr else onNotify 6 code s
 
+/-- what reading `m` changes before the outbound half: `recv_timer.single` (hold time 0),
+    a ROUTE-REFRESH re-queues what is in the Adj-RIB-Out. -/
+def mainPre (m : Option Msg) (s : State) : State :=
+  { s with kaSeen := s.kaSeen || (s.cfg.hold0 && m == some .keepalive),
+           routesPending := s.routesPending || (m == some .refresh && s.ribNonEmpty) }
+
+/-- the outbound half and the loop condition; a failed write is a `NetworkError`. -/
+def mainTail (s : State) : R :=
+  if (mainSends s).2 then (mainSends s).1 ⊳ mainExit else (mainSends s).1 ⊳ onNetErr
+
 /-- one iteration of the `_main` loop on the current connection; `none` = the read timed out. -/
 def mainIter (m : Option Msg) (s : State) : R :=
   match m with
@@ -267,11 +277,7 @@ def mainIter (m : Option Msg) (s : State) : R :=
   | some .notification => onNotification s
   | _ =>
     if s.cfg.hold0 ∧ m = some .keepalive ∧ s.kaSeen then onNotify 2 6 s
-    else
-      let s1 := if s.cfg.hold0 ∧ m = some .keepalive then { s with kaSeen := true } else s
-      let s2 := if m = some .refresh then { s1 with routesPending := s1.routesPending || s1.ribNonEmpty } else s1
-      let w := mainSends s2
-      if w.2 then w.1 ⊳ mainExit else w.1 ⊳ onNetErr
+    else mainTail (mainPre m s)
 
 /-- an iteration of the `_main` loop when `peer.proto` is no longer the connection it reads
     (`_stop` dropped it, `handle_connection` adopted another one): the read times out, the
@@ -343,18 +349,22 @@ def fuelOf (s : State) : Nat :=
   | some k => k.inbox.length + 2
   | none => 0
 
+/-- `handle_connection` refuses: ESTABLISHED, or OPENCONFIRM and the peer's identifier is the lower one. -/
+def refuses (s : State) : Bool :=
+  s.fsm == .established ||
+  (s.fsm == .openconfirm && (match s.conn with | some k => k.idLow | none => false))
+
+/-- `handle_connection` accepts: whatever `peer.proto` was is closed, the new connection becomes
+    `peer.proto`; the coroutine is not told (it goes on only if it was in the passive wait). -/
+def adopt (s : State) : R :=
+  (if s.conn.isSome then closeP s else (s, []))
+  ⊳ (fun (t : State) => ({ t with conn := some { id := t.nextId }, nextId := t.nextId + 1 }, []))
+  ⊳ (fun (t : State) => if t.pc = .passiveWait then establish2 t else (t, []))
+
 /-- `Peer.handle_connection`. -/
 def handleConnection (s : State) : R :=
-  let id := s.nextId
-  let s := { s with nextId := id + 1 }
-  let refuse : Bool :=
-    s.fsm == .established ||
-    (s.fsm == .openconfirm && (match s.conn with | some k => k.idLow | none => false))
-  if refuse then (s, [.reject id, .close id])
-  else
-    (if s.conn.isSome then closeP s else (s, []))
-    ⊳ (fun (s : State) => ({ s with conn := some { id := id } }, []))
-    ⊳ (fun (s : State) => if s.pc = .passiveWait then establish2 s else (s, []))
+  if refuses s then ({ s with nextId := s.nextId + 1 }, [.reject s.nextId, .close s.nextId])
+  else adopt s
 
 /-- the effect of one event before the coroutine looks at its input again. -/
 def react (s : State) : Event → R
